@@ -128,7 +128,24 @@ func recordHistory(tab *SymTab, id int, depth int, seed int64) (concreteHistory,
 	return h, digests
 }
 
-func cmdDeterminism(tab *SymTab, bw *bufio.Writer, n, depth int, seed int64) {
+// recordGiven runs a given abstract history {init, events:[{msg, faults}]} and records its concrete transactions.
+func recordGiven(tab *SymTab, id int, rec M) (concreteHistory, []string) {
+	inst := NewInstance(tab, true)
+	gs := getm(rec, "init")
+	inst.Materialise(gs)
+	h := concreteHistory{ID: id, Genesis: gs}
+	digests := []string{hex.EncodeToString(inst.Commit())[:24]}
+	for _, e := range arr(rec, "events") {
+		em := e.(map[string]any)
+		ctx := concretiseTx(inst, getm(em, "msg"), faultsOf(em["faults"]))
+		r := runConcrete(inst, ctx)
+		h.Txs = append(h.Txs, ctx)
+		digests = append(digests, stepDigest(r, inst.Commit()))
+	}
+	return h, digests
+}
+
+func cmdDeterminism(tab *SymTab, rd *os.File, bw *bufio.Writer, n, depth int, seed int64) {
 	self, _ := os.Executable()
 	var hs []concreteHistory
 	first := map[int][]string{}
@@ -136,6 +153,25 @@ func cmdDeterminism(tab *SymTab, bw *bufio.Writer, n, depth int, seed int64) {
 		h, d := recordHistory(tab, id, depth, seed)
 		hs = append(hs, h)
 		first[id] = d
+	}
+	// histories given on the input (TLC-enumerated paths) in addition to the random ones
+	if rd != os.Stdin {
+		sc := bufio.NewScanner(rd)
+		sc.Buffer(make([]byte, 1<<20), 1<<26)
+		id := 1_000_000
+		for sc.Scan() {
+			rec, ok := parseLine(sc.Bytes())
+			if !ok || rec["init"] == nil {
+				continue
+			}
+			id++
+			if *onlyGiven != 0 && id != *onlyGiven {
+				continue
+			}
+			h, d := recordGiven(tab, id, rec)
+			hs = append(hs, h)
+			first[id] = d
+		}
 	}
 	// second OS process replays all histories from a file
 	tmp, err := os.CreateTemp("", "verif-det-*.json")
@@ -188,7 +224,7 @@ func cmdDeterminism(tab *SymTab, bw *bufio.Writer, n, depth int, seed int64) {
 		bw.Write(bz)
 		bw.WriteByte('\n')
 	}
-	fmt.Fprintf(os.Stderr, "determinism: %d histories x %d steps x 9 replicas\n", n, depth)
+	fmt.Fprintf(os.Stderr, "determinism: %d histories x 9 replicas\n", len(hs))
 }
 
 func cmdDetChild(tab *SymTab, rd *os.File, bw *bufio.Writer) {
